@@ -528,6 +528,9 @@ pub struct Oracle {
     pub pub_done: u64,
     /// generation value the file had after each completed publication
     pub gen_of_pub: BTreeMap<u64, u16>,
+    /// number of completed publications so far, and its value when each publication completed
+    pub completed_total: u64,
+    pub completed_at: BTreeMap<u64, u64>,
     pub writer_alive: bool,
     pub in_write: bool,
     pub odd_stored: bool,
@@ -574,6 +577,14 @@ impl Oracle {
             wk,
             pub_done,
             gen_of_pub,
+            completed_total: 0,
+            completed_at: {
+                let mut m = BTreeMap::new();
+                if pub_done > 0 {
+                    m.insert(pub_done, 0);
+                }
+                m
+            },
             writer_alive: false,
             in_write: false,
             odd_stored: false,
@@ -625,6 +636,7 @@ impl Oracle {
             if self.start_usable {
                 let pre = self.pre_new.clone().unwrap();
                 self.viol("C04", "usable-segment-wiped", format!("ShmWriter::new wiped a usable segment (ver {}, gen {}, len {})", pre.ver, pre.gen, pre.len));
+                self.viol("C11", "generation-back-to-zero", format!("a restart re-initialised a published segment: generation went from {} back to 0", pre.gen));
             }
             if self.readers.values().any(|r| r.attached) && !self.external_corruption {
                 self.viol("C04", "wipe-under-attached-reader", "segment truncated while a reader is attached".to_string());
@@ -708,6 +720,8 @@ impl Oracle {
             self.viol("C11", "unchanged-after-update", format!("generation {} unchanged by a completed update", fs.gen));
         }
         self.gen_of_pub.insert(self.wk, fs.gen);
+        self.completed_total += 1;
+        self.completed_at.insert(self.wk, self.completed_total);
         let exp = rec_words(self.wk);
         // (a file shorter than 72 bytes with an intact header is taken over in place; the record then
         // lives beyond EOF in the shared page and is only visible through a mapping: see the fresh reader below)
@@ -773,7 +787,12 @@ impl Oracle {
                     }
                     if self.sc && obs.quiet && k != self.pub_done {
                         let fs = file_state(&self.path);
-                        let coincidence = self.gen_of_pub.get(&k).map(|g| *g == fs.gen).unwrap_or(false) && k != 0;
+                        // documented exception only: the reader slept through an exact (positive) multiple of 32767
+                        // completed publications, so that its cached generation coincides with the live one
+                        let slept = self.completed_at.get(&k).map(|c| self.completed_total - c);
+                        let coincidence = k != 0
+                            && self.gen_of_pub.get(&k).map(|g| *g == fs.gen).unwrap_or(false)
+                            && matches!(slept, Some(n) if n > 0 && n % 32767 == 0);
                         if !coincidence {
                             self.viol("C03", "stale-when-idle", format!("reader {r}: no update in flight during the call, returned record {k}, latest completed publication is {} (generation {})", self.pub_done, fs.gen));
                         }
